@@ -40,8 +40,8 @@ def make_records(rng, alph, jsonld_safe=False, nrec=None):
 
 class C14(ProgramProperty):
     id = "C14"
-    theorems = ["C14_epm", "C14_jsonld", "C14_shacl_literal", "C14_shacl_entry", "C14_tsv"]
-    lean_modules = ["CuriesVerif.Properties.C14"]
+    theorems = ["C14_epm", "C14_jsonld", "C14_shacl_literal", "C14_shacl_entry", "C14_tsv", "C14_tsv_bytes"]
+    lean_modules = ["CuriesVerif.Properties.C14", "CuriesVerif.Properties.Bytes"]
     rule = ("one case = one strict converter of 1-4 records (records with and without synonyms and patterns side by "
             "side) written with the real writers into real files and read back with the real readers: "
             "write_extended_prefix_map (arbitrary Unicode incl. quotes, angle brackets, tabs, newlines, NUL; lone "
@@ -87,6 +87,33 @@ class C14(ProgramProperty):
 
     def evaluations(self, case):
         return 1
+
+    def run_impl(self, case):
+        from .. import common
+
+        del common.CAPTURED[:]
+        impl = super().run_impl(case)
+        case["_texts"] = [[fmt, [[cps(p_), cps(u_)] for p_, u_ in pairs], cps(text)] for fmt, pairs, text in common.CAPTURED]
+        return impl
+
+    def compare(self, case, impl, resp):
+        """Besides the program correspondence: the text write_tsv put on disk is, character for character, what the
+        csv model says (Files.tsvText), and the model's reader parses it back to the written pairs."""
+        from .. import common
+
+        diffs = super().compare(case, impl, resp)
+        for fmt, pairs, text in case.get("_texts", []):
+            if fmt != "tsv":
+                continue
+            r = common.run_driver([{"k": "tsv", "header": [cps("prefix"), cps("base")],
+                                    "records": [{"p": p_, "u": u_, "ps": [], "us": [], "pat": None} for p_, u_ in pairs]}])[0]
+            if r.get("text") != text:
+                diffs.append({"step": 0, "op": "text written by write_tsv", "implementation": uncps(text),
+                              "model": uncps(r.get("text", []))})
+            if r.get("pairs") != [[p_, u_] for p_, u_ in pairs]:
+                diffs.append({"step": 0, "op": "csv model reading the text of write_tsv", "implementation": pairs,
+                              "model": r.get("pairs")})
+        return diffs
 
     def reductions(self, case):
         for c in super().reductions(case):
